@@ -2005,9 +2005,10 @@ def Not(operand: Any) -> SymbolicExpression:
         operand = ElseIf(Not(operand.left), Not(operand.right))
     elif isinstance(operand, OR):
         operand = AND(Not(operand.left), Not(operand.right))
-    elif not hasattr(operand, '_invert_'):
-        # e.g. a universal quantification or a conclusion selector: nothing would read the flag, and the "negated"
-        # condition would silently keep its meaning.
+    elif not hasattr(type(operand), '_invert_'):
+        # e.g. a universal quantification, a conclusion selector or a concatenation: nothing would read the flag, and the
+        # "negated" condition would silently keep its meaning. (Asked of the class: on the expression itself, attribute
+        # access builds an Attribute expression in symbolic mode, so every variable-like operand "has" the flag.)
         raise NotImplementedError(f"Symbolic NOT operations on {type(operand).__name__} operands are not supported.")
     else:
         operand._invert_ = not operand._invert_
